@@ -54,7 +54,8 @@ int main(int argc, char *argv[])
 				do { ins = echs_evical_pull(&pp); dump_ins(ins, &first); } while (ins.v != INSVERB_UNK);
 				/* the callers keep the read buffer alive until the parser is finished with it */
 				free(prev); prev = chunk;
-				if (pp == NULL) break;	/* parser finished (END:VCALENDAR): echse stops reading here too */
+				/* a finished parser (END:VCALENDAR) is not the end of the stream: every caller (echse, echsq, echsd, echsx)
+				 * goes on reading and pushes what comes next, which starts a new parser */
 			}
 			if (pp != NULL) { echs_instruc_t ins = echs_evical_last_pull(&pp); dump_ins(ins, &first); }
 			free(prev);
